@@ -39,7 +39,7 @@ structure Entry (P : Prog) (f : Nat) (fn : Function) (sb lb : Nat) (p : Proc) : 
 running at an admissible pc, or returned (result still on the stack), or finished. -/
 inductive Shape1 (f n : Nat) (anns : Anns) (sb lb : Nat) (p : Proc) : Prop
   | running (fr : Frame) (hfr : p.frames = [fr]) (hf : fr.functionIndex = f) (hlb : fr.localsBase = lb)
-      (hat : AtPc n anns fr.counter p.stack.length p.locals.length sb lb)
+      (hat : AtPc n anns fr.counter p.stack p.locals.length sb lb)
       (hres : p.result = none)
   | returned (hfr : p.frames = []) (hres : p.result = none) (hs : p.stack.length = sb + 1)
   | finished (hfr : p.frames = []) (v : Val) (hres : p.result = some (.ok v)) (hs : p.stack.length = sb)
@@ -69,7 +69,7 @@ theorem checkAnn_sound_callfree {P : Prog} {f : Nat} {fn : Function} {anns : Ann
     | refl =>
       obtain ⟨cc, hfr⟩ := h0.frames
       refine ⟨.running _ hfr rfl rfl ?_ h0.result, h0.park, h0.sel⟩
-      exact flowsTo_atPc hC.entry (by simp [h0.stack]) (by simpa using h0.locals)
+      exact flowsTo_atPc hC.entry (by simp [h0.stack]) (by simpa using h0.locals) (by simp)
     | @step p p' ev act _ htr ih =>
       obtain ⟨hsh, hpark, hsel⟩ := ih
       cases ev with
@@ -86,7 +86,7 @@ theorem checkAnn_sound_callfree {P : Prog} {f : Nat} {fn : Function} {anns : Ann
             have hge : fn.instructions.size ≤ fr.counter := by
               simpa using hi
             have hs : p.stack.length = sb + 1 := by
-              rcases hat with ⟨_, h⟩ | ⟨a, ha, _, _⟩
+              rcases hat with ⟨_, h⟩ | ⟨a, ha, _, _, _⟩
               · exact h
               · have : fr.counter < anns.size := (Array.getElem?_eq_some_iff.mp ha).1
                 rw [hC.size] at this
@@ -96,18 +96,18 @@ theorem checkAnn_sound_callfree {P : Prog} {f : Nat} {fn : Function} {anns : Ann
             rw [hi] at htr
             simp only [Option.some.injEq] at htr
             have hpc : fr.counter < fn.instructions.size := (Array.getElem?_eq_some_iff.mp hi).1
-            rcases hat with ⟨h, _⟩ | ⟨a, ha, hs, hl⟩
+            rcases hat with ⟨h, _⟩ | ⟨a, ha, hs, hl, hg⟩
             · omega
             · obtain ⟨succs, htrf, hflow⟩ := hC.local_ _ a i ha hi
               have hsimple := hcf i (by
                 have := (Array.getElem?_eq_some_iff.mp hi)
                 obtain ⟨h, rfl⟩ := this
                 simp)
-              have := simple_step_sound (O := O) hfr htrf hs (by rw [hlb]; exact hl) hsimple hC.small hpc
+              have := simple_step_sound (O := O) hfr htrf hs (by rw [hlb]; exact hl) (by rw [hlb]; exact hg) hsimple hC.small hpc
               rw [htr] at this
               obtain ⟨s, hsm, hst⟩ := this
               refine ⟨.running _ hst.frames hf hlb ?_ (by rw [hst.result, hres]), by rw [hst.park, hpark], by rw [hst.sel, hsel]⟩
-              exact flowsTo_atPc (hflow s hsm) hst.stack (by rw [← hlb]; exact hst.locals)
+              exact flowsTo_atPc (hflow s hsm) hst.stack (by rw [← hlb]; exact hst.locals) (by rw [← hlb]; exact hst.guard)
         | returned hfr hres hs =>
           simp only [hres, Option.isSome_none, Bool.false_eq_true, if_false, hfr, Option.some.injEq, ok,
             Except.ok.injEq, Prod.mk.injEq] at htr
@@ -144,14 +144,14 @@ theorem checkAnn_sound_callfree {P : Prog} {f : Nat} {fn : Function} {anns : Ann
         rw [hi] at htr
         simp only [Option.some.injEq] at htr
         have hpc : fr.counter < fn.instructions.size := (Array.getElem?_eq_some_iff.mp hi).1
-        rcases hat with ⟨h, _⟩ | ⟨a, ha, hs, hl⟩
+        rcases hat with ⟨h, _⟩ | ⟨a, ha, hs, hl, hg⟩
         · omega
         · obtain ⟨succs, htrf, hflow⟩ := hC.local_ _ a i ha hi
           have hsimple := hcf i (by
             have := (Array.getElem?_eq_some_iff.mp hi)
             obtain ⟨h, rfl⟩ := this
             simp)
-          have := simple_step_sound (O := O) hfr htrf hs (by rw [hlb]; exact hl) hsimple hC.small hpc
+          have := simple_step_sound (O := O) hfr htrf hs (by rw [hlb]; exact hl) (by rw [hlb]; exact hg) hsimple hC.small hpc
           rw [htr] at this
           exact this
     | returned hfr hres hs => simp [hres, hfr, ok] at htr
@@ -362,8 +362,9 @@ def exProg : Prog :=
 
 /-- The inferred annotations of the example (two paths join at the end with height 1). -/
 example : inferAnn exProg 0 =
-    #[some ⟨1, 0⟩, some ⟨2, 0⟩, some ⟨3, 0⟩, some ⟨2, 0⟩, some ⟨2, 0⟩, some ⟨1, 0⟩, some ⟨0, 0⟩,
-      some ⟨1, 0⟩, some ⟨1, 0⟩, some ⟨0, 0⟩] := by decide +kernel
+    #[some ⟨1, 0, .none⟩, some ⟨2, 0, .dup 0⟩, some ⟨3, 0, .none⟩, some ⟨2, 0, .none⟩, some ⟨2, 0, .none⟩,
+      some ⟨1, 0, .none⟩, some ⟨0, 0, .none⟩, some ⟨1, 0, .none⟩, some ⟨1, 0, .none⟩, some ⟨0, 0, .none⟩] := by
+  decide +kernel
 
 /-- The example passes the checker with them. -/
 example : checkAnn exProg 0 (inferAnn exProg 0) = true := by decide +kernel
@@ -403,5 +404,48 @@ example : AllChecked exCallProg #[inferAnn exCallProg 0, inferAnn exCallProg 1] 
 example : checkAnn { exProg with functions := #[{ exFn with instructions := #[.duplicate, .jumpIf 1, .duplicate, .pop] }] } 0
     (inferAnn { exProg with functions := #[{ exFn with instructions := #[.duplicate, .jumpIf 1, .duplicate, .pop] }] } 0) = false := by
   decide +kernel
+
+/-! ### The nil guard: a branch condition that binds after a step that may be nil -/
+
+/-- `{ c₁, c₂ =x => x }`-like code: the first step's nil short-circuits to the end of the condition
+(pc 5) *before* the `Store` of the second step; the consequence (`Pop, Load 0`) is reached only when
+the condition's value is non-nil — i.e. only on the path that stored. -/
+def guardFn : Function :=
+  { instructions := #[.duplicate, .not, .jumpIf 2, .duplicate, .store,
+                      .duplicate, .not, .jumpIf 2, .pop, .load 0],
+    captures := 0, typeId := 0 }
+
+def guardProg : Prog := { exProg with functions := #[guardFn] }
+
+/-- At the join (pc 5) the annotation has the MIN locals (0) and the guard "non-nil top ⇒ 1 local";
+`Duplicate`/`Not` carry it to the `JumpIf`, whose fall-through side gets the local. -/
+example : inferAnn guardProg 0 =
+    #[some ⟨1, 0, .none⟩, some ⟨2, 0, .dup 0⟩, some ⟨2, 0, .neg 0⟩, some ⟨1, 0, .none⟩, some ⟨2, 0, .dup 0⟩,
+      some ⟨1, 0, .top 1⟩, some ⟨2, 0, .dup 1⟩, some ⟨2, 0, .neg 1⟩, some ⟨1, 1, .none⟩, some ⟨0, 1, .none⟩] := by
+  decide +kernel
+
+example : checkAnn guardProg 0 (inferAnn guardProg 0) = true := by decide +kernel
+
+/-- Without the second `Not` the correlation is the wrong way round — the `Load` is reached exactly
+when the value IS nil, i.e. on the path that did not store — and the checker rejects … -/
+def badGuardFn : Function :=
+  { guardFn with instructions := #[.duplicate, .not, .jumpIf 2, .duplicate, .store,
+                                   .duplicate, .jumpIf 2, .pop, .load 0] }
+
+example : checkAnn { exProg with functions := #[badGuardFn] } 0
+    (inferAnn { exProg with functions := #[badGuardFn] } 0) = false := by decide +kernel
+
+/-- … rightly: on a nil argument M-VM fails structurally (`VariableUndefined`) at that `Load`. -/
+example :
+    (do
+      let p0 := Proc.spawn 7 0 [] Val.nil
+      let step := fun (p : Proc) => match transition { exProg with functions := #[badGuardFn] } p (.run C07Dummy.oracle) with
+        | some (.ok (p', _)) => some p'
+        | _ => none
+      let p1 ← step p0; let p2 ← step p1; let p3 ← step p2; let p4 ← step p3; let p5 ← step p4
+      let p6 ← step p5
+      match transition { exProg with functions := #[badGuardFn] } p6 (.run C07Dummy.oracle) with
+      | some (.error e) => some e.isStructural
+      | _ => none) = some true := by decide +kernel
 
 end C07
